@@ -233,12 +233,65 @@ def trace_invariants(norm_text, fname, contract, witnesses):
             "markers": len(ins.marks)}
 
 
+MANY_UNIVERSE = [0, 1, 5, U32MAX - 1, U32MAX]
+
+
+def search_many(variant="prod", maxk=3, limit=3):
+    """Bounded stand-in for set_union_merge_many (NOT proved): every list of <= maxk strictly increasing
+    arrays over a 5-value universe that includes 0 and 2**32-1, empty arrays and the empty list included.
+    Contract: result is the strictly increasing uint32 union of all of them."""
+    from .. import env
+
+    env.import_catii(variant)
+    from catii import set_operations as so
+    import numpy
+
+    arrs = increasing_arrays(MANY_UNIVERSE)
+    n = 0
+    hits = []
+    for k in range(0, maxk + 1):
+        for combo in itertools.product(arrs, repeat=k):
+            n += 1
+            want = sorted(set().union(*[set(c) for c in combo])) if combo else []
+            try:
+                r = so.set_union_merge_many([numpy.array(c, dtype=numpy.uint32) for c in combo])
+                got = [int(x) for x in numpy.asarray(r).tolist()]
+                ok = got == want and numpy.asarray(r).dtype == numpy.uint32
+                out = got
+            except Exception as e:  # noqa
+                ok, out = False, "raised %s: %s" % (type(e).__name__, e)
+            if not ok:
+                hits.append({"args": [list(c) for c in combo], "outcome": out, "expected": want,
+                             "class": _many_class(combo, out, want)})
+                if len(hits) >= 400:
+                    return n, hits
+    return n, hits
+
+
+def _many_class(combo, out, want):
+    if not combo or all(len(c) == 0 for c in combo):
+        return "no-values"
+    if isinstance(out, str):
+        return "raises"
+    if len(out) != len(set(out)):
+        return "duplicates-kept"
+    if any(U32MAX in c for c in combo) and not out:
+        return "sentinel-wraps-at-2**32-1"
+    if len([c for c in combo if c]) >= 3:
+        return "three-or-more-arrays"
+    return "other"
+
+
 def main():
     req = json.load(sys.stdin)
     sys.path.insert(0, req.get("verif", "/verif"))
     import importlib
 
     K = importlib.import_module("contracts.kernels")
+    if req["op"] == "search_many":
+        n, hits = search_many(req.get("variant", "prod"), req.get("maxk", 3))
+        json.dump({"calls": n, "hits": hits}, sys.stdout)
+        return
     table = getattr(K, req["table"])
     contract = table[req["fname"]]
     params = req["params"]
